@@ -452,7 +452,13 @@ def _event(rng, evnames, itf, externs, enums, subints, force_dir=None, force_nam
         fdir = 'in' if direction == 'out' else rng.weighted([(5, 'in'), (3, 'out'), (2, 'inout')])
         if ext.get('in_only'):
             fdir = 'in'
-        formals.append({'name': fn.ident('formal', rng.choice(['lower', 'any'])), 'dir': fdir,
+        fname = fn.ident('formal', rng.choice(['lower', 'any']))
+        if rng.chance(35):
+            # everyday names that recur across the events of an interface (`in void Read(out T value); out void Changed(T value);`)
+            common = [n for n in ('value', 'id', 'data', 'count', 'msg') if n not in {f['name'] for f in formals}]
+            if common:
+                fname = rng.choice(common)
+        formals.append({'name': fname, 'dir': fdir,
                         'ext': ext['ns'] + [ext['name']]})
     if force_ret:
         ret = dict(force_ret)
